@@ -133,6 +133,30 @@ func c16G(rng *rand.Rand, withMailmap bool) string {
 			}
 			ids[key] = id
 		}
+		// forked copies of the detector answer as the original does (same option, same shared tables), and merging
+		// them back changes nothing
+		forks := d.Fork(3)
+		for fi, f := range forks {
+			for _, c := range commits {
+				r0, _ := d.Consume(map[string]interface{}{core.DependencyCommit: c})
+				r1, err := f.Consume(map[string]interface{}{core.DependencyCommit: c})
+				if err != nil || r1[identity.DependencyAuthor] != r0[identity.DependencyAuthor] {
+					return fmt.Sprintf("exact=%v: fork %d of the detector resolves %q to %v, the original to %v (commits %v)",
+						exact, fi, c.Author.String(), r1[identity.DependencyAuthor], r0[identity.DependencyAuthor], sigs(commits))
+				}
+			}
+		}
+		d.Merge(forks)
+		for _, c := range commits {
+			r, _ := d.Consume(map[string]interface{}{core.DependencyCommit: c})
+			key := strings.ToLower(c.Author.Email)
+			if exact {
+				key = strings.ToLower(c.Author.String())
+			}
+			if r[identity.DependencyAuthor].(int) != ids[key] {
+				return fmt.Sprintf("exact=%v: after Fork+Merge %q resolves to %v instead of %d", exact, c.Author.String(), r[identity.DependencyAuthor], ids[key])
+			}
+		}
 		if !exact {
 			// description = exactly keys mapped to id
 			for id, desc := range d.ReversedPeopleDict {
